@@ -31,9 +31,9 @@ func c09Receivers(c *Ctx) []c09Recv {
 			},
 		} {
 			content := content
-			for vi := 0; vi < 2; vi++ {
+			for vi := 0; vi < 3; vi++ {
 				vi := vi
-				if c.Quick() && vi == 1 && ci == 0 {
+				if c.Quick() && vi >= 1 && ci == 0 {
 					continue
 				}
 				out = append(out, c09Recv{fmt.Sprintf("%s/content%d/variant%d", k, ci, vi), func() any {
@@ -49,7 +49,15 @@ func c09Receivers(c *Ctx) []c09Recv {
 					} else {
 						s = newStackKind(k)
 					}
+					if vi == 2 {
+						// closures that currently say "no": the flag must hold regardless of what they answer
+						s.SetValidityPolicy(func(...any) error { return errCat }).SetMutex().SetNoNesting(true)
+						s.SetEqualityPolicy(func(any, any) error { return errCat })
+					}
 					s.Push(content()...)
+					if vi == 2 {
+						s.SetPushPolicy(func(...any) error { return nil })
+					}
 					return s.SetReadOnly(true)
 				}})
 			}
@@ -62,6 +70,9 @@ func c09Receivers(c *Ctx) []c09Recv {
 				SetAuxiliary(stackage.Auxiliary{"z": 2}).SetLogLevel(stackage.LogLevel1).SetReadOnly(true)
 		}},
 		c09Recv{"Condition/invalid", func() any { return stackage.Cond("", stackage.Eq, "val").SetReadOnly(true) }},
+		c09Recv{"Condition/rejecting-validity", func() any {
+			return stackage.Cond("kw", stackage.Eq, "val").SetValidityPolicy(func(...any) error { return errCat }).SetReadOnly(true)
+		}},
 		c09Recv{"Condition/init-only", func() any { var cd stackage.Condition; cd.Init(); return cd.SetNoNesting(true).SetReadOnly(true) }},
 	)
 	return out
@@ -106,7 +117,7 @@ func c09Calls(x any) []c09Call {
 	pick := func(t reflect.Type, pos int) []namedValue { return basicValues(t) }
 	var out []c09Call
 	for _, me := range ms {
-		for _, t := range argTuples(me.Type, pick, 60) {
+		for _, t := range append(argTuples(me.Type, pick, 60), extraTuples(me.Name)...) {
 			out = append(out, c09Call{me.Name, t.Desc, t.Args})
 		}
 	}
